@@ -322,6 +322,56 @@ namespace cs
                     }
                     check_leaf_problem("move assignment of the composition");
                 }
+                else if (o.kind == "tdfw")
+                {
+                    // tdfw size array align: the composition is asked to try_deallocate memory none of its leaves
+                    // handed out: the answer is false and no leaf took anything back
+                    if (!comp->composable)
+                        continue;
+                    Req r;
+                    r.fam   = COMP;
+                    r.array = o.arg(1) % 2 && comp->array_ok;
+                    r.count = r.array ? 1 + std::size_t(o.arg(1) / 2) % 6 : 1;
+                    r.size  = 1 + std::size_t(o.arg(0)) % 300;
+                    r.align = std::size_t(1) << (std::size_t(o.arg(2)) % 5);
+                    if (comp->fixed_size)
+                    {
+                        r.size  = comp->fixed_size;
+                        r.align = comp->fixed_align;
+                    }
+                    auto  bytes = r.count * r.size;
+                    void* mem   = heap.harness_alloc(bytes, 16, 0);
+                    if (!mem)
+                        continue;
+                    std::memset(mem, 0x3C, bytes);
+                    auto n0 = env.log.calls.size();
+                    auto t0 = env.track.ev.size();
+                    env.log.begin_op(0);
+                    heap.begin_op(0);
+                    bool ok = comp->dealloc(r, mem);
+                    heap.end_op();
+                    hash.add(0xD0 + (ok ? 1 : 0));
+                    stats().hit("reach.composition_foreign_try_deallocate");
+                    if (ok)
+                        violate("C08", "foreign_dealloc_accepted", "try_deallocate through the composition returned "
+                                                                   "true for memory none of its allocators handed out");
+                    for (auto i = n0; i < env.log.calls.size(); ++i)
+                        if (env.log.calls[i].ok || env.log.calls[i].is_alloc())
+                            violate("C08", "foreign_dealloc_changed_state",
+                                    "a refused try_deallocate through the composition %s leaf %d",
+                                    env.log.calls[i].is_alloc() ? "made an allocation request to" :
+                                                                  "released memory of",
+                                    env.log.calls[i].leaf);
+                    if (comp->has_tracker && env.track.ev.size() != t0)
+                        violate("C08,C09", "tracker_events", "a refused try_deallocate produced %zu tracker event(s)",
+                                env.track.ev.size() - t0);
+                    for (std::size_t i = 0; i < bytes; ++i)
+                        if (static_cast<unsigned char*>(mem)[i] != 0x3C)
+                            violate("C08", "foreign_dealloc_changed_state", "a refused try_deallocate wrote into the "
+                                                                            "foreign memory");
+                    env.log.problem.clear(); // (leaves note refused foreign releases only for the throwing interface)
+                    heap.harness_free(mem);
+                }
                 else if (o.kind == "mx")
                 {
                     auto a = comp->max_node(), b = comp->max_array(), c = comp->max_align();
